@@ -296,7 +296,7 @@ def _gen_solve(rng):
 
 def _gen_matrix(rng):
     nv = rng.randint(1, 5)
-    cls = rng.choice(["int", "dyadic", "dyadic", "zdyadic", "zdecimal"])
+    cls = rng.choice(["int", "dyadic", "dyadic", "zdyadic", "zdecimal", "decimal"])   # decimal: badly scaled entries (1e-300 ... 1e15)
     def entry():
         if rng.random() < 0.2:
             return 0 if cls == "int" else 0.0
